@@ -216,6 +216,24 @@ func maskKey(m []bool) string {
 
 // randG: random non-uniform upstream weighting (never all-equal for >= 2 elements).
 func randG(k *fw.K, shape []int) *ref.T {
+	if n := ref.Prod(shape); n >= 2 && k.Rng.Intn(5) == 0 {
+		// small integers that cancel exactly over the whole tensor (non-uniform, total exactly 0)
+		g := ref.Zeros(shape)
+		s := 0.
+		for i := 0; i < n-1; i++ {
+			g.Data[i] = float64(1 + k.Rng.Intn(3))
+			if k.Rng.Intn(2) == 0 {
+				g.Data[i] = -g.Data[i]
+			}
+			s += g.Data[i]
+		}
+		g.Data[n-1] = -s
+		if g.Data[n-1] == 0 {
+			g.Data[0] += 1
+			g.Data[n-1] -= 1
+		}
+		return g
+	}
 	g := RandT(k.Rng, shape, 0.5, 2)
 	for i := range g.Data {
 		if k.Rng.Intn(2) == 0 {
@@ -223,4 +241,14 @@ func randG(k *fw.K, shape []int) *ref.T {
 		}
 	}
 	return g
+}
+
+// CollidingShapes: same-rank shape pairs (triples) that are different but coincide under keys an
+// implementation might be tempted to cache by: equal element count, equal sum of sizes, equal
+// concatenation of the decimal digits, equal 31-polynomial hash  (rank*31+d0)*31+d1 ...
+var CollidingShapes = [][][]int{
+	{{1, 11}, {11, 1}}, {{12, 3}, {1, 23}}, {{2, 13}, {21, 3}}, {{1, 32}, {2, 1}}, {{2, 33}, {3, 2}}, {{1, 63}, {3, 1}},
+	{{2, 6}, {3, 4}, {4, 3}}, {{12, 1}, {1, 12}, {6, 2}}, {{2, 3}, {3, 2}}, {{1, 4}, {4, 1}, {2, 2}},
+	{{1, 1, 32}, {1, 2, 1}}, {{2, 1, 3}, {1, 3, 2}, {3, 2, 1}}, {{11}, {1, 1}}, {{32}, {1}}, {{1, 2, 13}, {1, 21, 3}},
+	{{3, 1, 4}, {4, 1, 3}}, {{2, 2, 3}, {3, 2, 2}, {2, 3, 2}}, {{5, 7}, {7, 5}, {35, 1}}, {{10, 1}, {1, 10}, {2, 5}},
 }
